@@ -22,7 +22,7 @@ FUNCTIONS = ["klongpy.writer.kg_write", "klongpy.writer.kg_write_string", "klong
              "klongpy.sys_fn.eval_sys_read_string", "klongpy.monads.eval_monad_format", "klongpy.dyads.eval_dyad_form"]
 ASSUMPTIONS = [
     "strings are CrossHair symbolic str (any Unicode content) up to the stated length; characters and symbol names come from "
-    "representative alphabets (quote, newline, blank, bracket, colon, letter, digit, non-ASCII); integers are symbolic within +-10^6",
+    "representative alphabets (quote, newline, blank, bracket, colon, letter, digit, non-ASCII); integers come from a table of digit shapes",
     "reals are a fixed table of awkward doubles (tiny, huge, negative, repr with exponent); float(repr(x)) == x and int(str(n)) == n are Python's guarantees",
     "NumPy = vt.symnp for the list -> array step (conformance-gated; witnesses replayed on real NumPy)",
 ]
@@ -32,6 +32,7 @@ OUTSIDE = ["inf / nan (listed known finding)", "symbols whose names are not symb
 CHARS = ['"', "\n", " ", "[", "]", ":", "a", "0", "c", "-", ";", "{", "é", "\\", "'", "."]
 SYM1 = ["a", "z", "."]
 SYMR = ["", "a", "1", ".", "ab", "a1"]
+INTS = [0, 1, -1, 7, -9, 10, -10, 42, 99, 100, -100, 101, 12345, -12345, 999999, -1000000]
 REALS = [0.5, -0.5, 1e-07, 1e+100, 1.5e-10, 123.456, 1e+16, 0.30000000000000004, 5e-324, 1.7976931348623157e+308, -2.5e-05, 100.0, 3.0]
 
 
@@ -79,10 +80,13 @@ def rt_char(ci: int, cj: int) -> bool:
 
 def rt_int(n: int, m: int) -> bool:
     """
-    pre: -1000000 <= n <= 1000000 and -1000000 <= m <= 1000000
+    pre: 0 <= n < len(INTS) and 0 <= m < len(INTS)
     post: _
     """
+    # integers come from a table of digit shapes (sign, digit count, trailing zeros): int -> text of a *symbolic* integer
+    # drags z3 into string/integer conversion and does not finish
     enter()
+    n = pick(INTS, n); m = pick(INTS, m)
     return verdict(_roundtrip(n) and _roundtrip(W.arr([n, m])) and _roundtrip(W.arr([m, [n, m], n])))
 
 
@@ -126,12 +130,13 @@ TEMPLATES = [
 
 def rt_list(p0: int, p1: int, p2: int, s: str, ti: int) -> bool:
     """
-    pre: 0 <= ti < len(TEMPLATES)
+    pre: 0 <= ti < len(TEMPLATES) and ti == CFG.get('ti', ti)
     pre: len(s) <= 2
-    pre: -1000 <= p0 <= 1000 and -1000 <= p1 <= 1000 and -1000 <= p2 <= 1000
+    pre: 0 <= p0 < 3 and p1 == 0 and p2 == 0
     post: _
     """
     enter()
+    p0 = pick([0, -3, 1000], p0); p1 = -2; p2 = 17
     t = pick(TEMPLATES, ti)
     v = W.arr(t([p0, p1, p2], s))
     return verdict(_roundtrip(v))
@@ -140,11 +145,12 @@ def rt_list(p0: int, p1: int, p2: int, s: str, ti: int) -> bool:
 def rt_dict(n: int, s: str, ki: int) -> bool:
     """
     pre: len(s) <= 2
-    pre: -1000 <= n <= 1000
-    pre: 0 <= ki <= 3
+    pre: 0 <= n < 4
+    pre: 0 <= ki <= 3 and ki == CFG.get('ki', ki)
     post: _
     """
     enter()
+    n = pick([0, -9, 42, -1000000], n)
     key = pick([1, "k", KGSym("k"), KGChar("k")], ki)
     d = {key: n, "s": s, 7: [n, s]}
     text = kg_write(d, BK, display=False)
@@ -158,7 +164,7 @@ def rt_dict(n: int, s: str, ki: int) -> bool:
 
 def form_format(n: int, s: str, ri: int, ci: int, a: int, b: int) -> bool:
     """
-    pre: -1000000 <= n <= 1000000
+    pre: 0 <= n < len(INTS)
     pre: len(s) <= CFG['n']
     pre: 0 <= ri < len(REALS) and 0 <= ci < len(CHARS)
     pre: 0 <= a < len(SYM1) and 0 <= b < len(SYMR)
@@ -168,7 +174,7 @@ def form_format(n: int, s: str, ri: int, ci: int, a: int, b: int) -> bool:
     enter()
     which = CFG["which"]
     if which == "int":
-        v = n
+        v = pick(INTS, n)
     elif which == "real":
         v = pick(REALS, ri)
     elif which == "char":
@@ -185,7 +191,7 @@ def form_format(n: int, s: str, ri: int, ci: int, a: int, b: int) -> bool:
 def bounds(tier):
     q = tier == "quick"
     return {"strings": "any content, length <= %d (alone), <= %d inside lists" % (3 if q else 5, 2 if q else 3),
-            "characters": CHARS, "integers": "+-10^6 symbolic", "reals": REALS, "symbols": "first char %s, rest %s" % (SYM1, SYMR),
+            "characters": CHARS, "integers": INTS, "reals": REALS, "symbols": "first char %s, rest %s" % (SYM1, SYMR),
             "list templates": len(TEMPLATES), "dictionaries": "3 entries, key kinds int/string/symbol/char"}
 
 
@@ -199,9 +205,11 @@ def obligations(tier):
         {"name": "integers", "fn": "rt_int", "cfg": {}, "timeout": T_},
         {"name": "reals", "fn": "rt_real", "cfg": {}, "timeout": T_},
         {"name": "symbols", "fn": "rt_symbol", "cfg": {}, "timeout": T_},
-        {"name": "nested lists", "fn": "rt_list", "cfg": {}, "timeout": T_},
-        {"name": "dictionaries", "fn": "rt_dict", "cfg": {}, "timeout": T_},
     ]
+    for ti in range(len(TEMPLATES)):
+        obs.append({"name": "nested list template %d" % ti, "fn": "rt_list", "cfg": {"ti": ti}, "timeout": T_})
+    for ki in range(4):
+        obs.append({"name": "dictionary key kind %d" % ki, "fn": "rt_dict", "cfg": {"ki": ki}, "timeout": T_})
     for w in ("int", "real", "char", "string", "symbol"):
         obs.append({"name": "form inverts format: %s" % w, "fn": "form_format", "cfg": {"which": w, "n": 3 if q else 4}, "timeout": T_})
     return obs
